@@ -7,6 +7,8 @@
 package zzsync
 
 import (
+	"fmt"
+	"sort"
 	"sync"
 	"sync/atomic"
 
@@ -106,4 +108,57 @@ func (p *Pool) Put(x interface{}) {
 	p.items = append(p.items, x)
 	p.mu.Unlock()
 	zzsimrt.Point() // a natural preemption point: right after an object went back to the pool
+}
+
+// Map delegates to the real sync.Map (no operation of it blocks, and the
+// race detector models it natively). Range is made deterministic: the real
+// one iterates in random order, which would break replay.
+type Map struct{ m sync.Map }
+
+func (m *Map) Load(key interface{}) (interface{}, bool) { zzsimrt.Point(); return m.m.Load(key) }
+func (m *Map) Store(key, value interface{})             { zzsimrt.Point(); m.m.Store(key, value); zzsimrt.Point() }
+func (m *Map) LoadOrStore(key, value interface{}) (interface{}, bool) {
+	zzsimrt.Point()
+	return m.m.LoadOrStore(key, value)
+}
+func (m *Map) LoadAndDelete(key interface{}) (interface{}, bool) {
+	zzsimrt.Point()
+	return m.m.LoadAndDelete(key)
+}
+func (m *Map) Delete(key interface{}) { zzsimrt.Point(); m.m.Delete(key) }
+func (m *Map) Swap(key, value interface{}) (interface{}, bool) {
+	zzsimrt.Point()
+	return m.m.Swap(key, value)
+}
+func (m *Map) CompareAndSwap(key, old, new interface{}) bool {
+	zzsimrt.Point()
+	return m.m.CompareAndSwap(key, old, new)
+}
+func (m *Map) CompareAndDelete(key, old interface{}) bool {
+	zzsimrt.Point()
+	return m.m.CompareAndDelete(key, old)
+}
+func (m *Map) Range(f func(key, value interface{}) bool) {
+	zzsimrt.Point()
+	type kv struct {
+		k, v interface{}
+		s    string
+	}
+	var all []kv
+	m.m.Range(func(k, v interface{}) bool {
+		all = append(all, kv{k, v, fmt.Sprintf("%T:%v", k, k)})
+		return true
+	})
+	sort.Slice(all, func(i, j int) bool { return all[i].s < all[j].s })
+	for _, e := range all {
+		if !f(e.k, e.v) {
+			return
+		}
+	}
+}
+
+// OnceFunc mirrors sync.OnceFunc on top of the shim's Once.
+func OnceFunc(f func()) func() {
+	var o Once
+	return func() { o.Do(f) }
 }
